@@ -213,4 +213,29 @@ example :
     let clicks (n : Nat) : List CbEv := (List.range n).flatMap (fun k => [.chg true (10000000 + 300000 * k), .chg false (10150000 + 300000 * k)])
     (cbRun c {} (clicks 9)).2 = false ∧ (cbRun c {} (clicks 10)).2 = true := by decide
 
+
+/-! ### configuration mode at boot (user_init) -/
+
+/-- **C12.B1 (boot with a complete configuration)** with server, Wi-Fi name and password and e-mail set (MQTT: server, Wi-Fi and -
+    unless authentication is off - user name and password; not locked) user_init goes on to normal operation -/
+theorem c12_boot_complete_no_cfgmode (c : BootCfg) (h1 : c.server0 = false) (h2 : c.ssid0 = false) (h3 : c.wifiPwd0 = false)
+    (h4 : c.email0 = false) :
+    bootCfgModeBase c = false ∧
+    (c.mqttEnabled = false → bootCfgModeMqtt c = false) ∧
+    (c.mqttEnabled = true → c.locked = false → (c.mqttNoAuth = true ∨ c.locPwd0 = false) → bootCfgModeMqtt c = false) := by
+  refine ⟨by simp [bootCfgModeBase, h1, h2, h3, h4], fun hm => by simp [bootCfgModeMqtt, h1, h2, h3, h4, hm], fun hm hl ha => ?_⟩
+  rcases ha with ha | ha <;> simp [bootCfgModeMqtt, h1, h2, h3, h4, hm, hl, ha]
+
+/-- **C12.B2 (configuration mode at boot only when something is missing)** if user_init starts the configuration mode, the
+    server, the Wi-Fi name or password, or the account (e-mail, or location id/password with no e-mail) is empty - or, with
+    MQTT, the user name / password while authentication is on, or the device is locked -/
+theorem c12_boot_cfgmode_means_incomplete (c : BootCfg) :
+    (bootCfgModeBase c = true → c.server0 = true ∨ c.ssid0 = true ∨ c.wifiPwd0 = true ∨ c.email0 = true) ∧
+    (bootCfgModeMqtt c = true → c.server0 = true ∨ c.ssid0 = true ∨ c.wifiPwd0 = true ∨ c.email0 = true ∨
+      (c.mqttEnabled = true ∧ (c.locked = true ∨ (c.mqttNoAuth = false ∧ c.locPwd0 = true)))) := by
+  cases c with
+  | mk a b e s w i m n l =>
+    cases a <;> cases b <;> cases e <;> cases s <;> cases w <;> cases i <;> cases m <;> cases n <;> cases l <;>
+      simp [bootCfgModeBase, bootCfgModeMqtt]
+
 end SuplaVerif.C12
